@@ -493,7 +493,11 @@ class Twin:
             sizes = self.rec_sizes(cs, l)
             k = len(sizes)
             if k > 1 and sizes[-1] == 0 and (k > 2 or self.rng.random() < 0.3):
-                self.A.conf.splits[l] = k - 1
+                # one or several unused trailing splits at once (the first split always stays)
+                tz = 0
+                while tz < k - 1 and sizes[k - 1 - tz] == 0:
+                    tz += 1
+                self.A.conf.splits[l] = k - self.rng.randint(1, tz)
                 done.append(l)
         if done:
             self.A.write_conf()
@@ -625,6 +629,37 @@ class Twin:
         self.check("after the second sync")
         self.loss_and_fix()
 
+    def directed_less_room(self):
+        """every configured split is in use; the file of a split that is followed by used ones is lost and its disk is replaced by
+        a smaller one (less room than its recorded size): fix cannot bring the split back to its recorded size and must stop
+        without touching the other splits (the map is fixed by the recorded sizes); with the room back, fix restores everything"""
+        n = next(n for n in range(2 * BS + 3, 40 * BS) if all(3 * BS <= plimit(n, s, 0) < 6 * BS for s in range(3)))
+        self.n = n
+        need = sum(x // BS for x in self.lims(0)[:2]) + 2
+        vals = [self.val() for _ in range(need)]
+        self.write(0, "A", vals[:need // 2]); self.write(1, "B", vals[need // 2:])
+        self.write(0, "C", [self.val() for _ in range(need - need // 2)])
+        self.sync("first sync, limits %r: all three splits are in use" % self.lims(0))
+        self.check("after the first sync")
+        which = self.rng.randrange(2)
+        keep = {s: open(self.A.pfile(0, s), "rb").read() for s in range(3) if s != which}
+        os.remove(self.A.pfile(0, which))
+        self.const = False
+        n2 = next(m for m in range(BS + 1, n) if BS <= plimit(m, which, 0) < self.lims(0)[which] - BS)
+        ra = self.runA("fix", n=n2)
+        self.steps.append("split %d of level 0 lost, its disk now has room for %d bytes only (limits %r); fix -> rc %d"
+                          % (which, plimit(n2, which, 0), self.lims(0, n2), ra.rc))
+        if ra.rc == 0:
+            self.problem("fix-accepted-a-short-fixed-split", "fix ended with status 0 although split %d could not be restored to its recorded size" % which)
+        for s, b in keep.items():
+            if open(self.A.pfile(0, s), "rb").read() != b:
+                self.problem("fix-changed-other-splits", "split %d was rewritten by a fix that could not restore split %d" % (s, which))
+        # the room is back: everything is restored
+        self.T.lose_parity(0)
+        rt = self.T.run("fix")
+        self.fix("room for split %d is back" % which)
+        self.check("after fix")
+
     def close(self):
         self.A.destroy()
         self.T.destroy()
@@ -653,6 +688,12 @@ def _scenario(job):
             t = Twin(seed, 2, 1, [3], 0, data_seed)
             try:
                 t.directed_more_room()
+            except Diverged:
+                pass
+        elif kind == "less-room":
+            t = Twin(seed, 2, 1, [3], 0, data_seed)
+            try:
+                t.directed_less_room()
             except Diverged:
                 pass
         else:
@@ -721,7 +762,8 @@ def binding_part(v, tier, cov):
     kmax = 4 if quick else 8
     shapes = [(2, 1), (2, 2), (3, 2), (3, 3), (2, 3), (3, 1)]
     nrand, nsteps = (48, 9) if quick else (420, 14)
-    jobs = [(s0 + 700, 2, 1, 3, "f8", 0, None), (s0 + 701, 2, 1, 3, "more-room", 0, None), (s0 + 702, 2, 1, 3, "more-room", 0, None)]
+    jobs = [(s0 + 700, 2, 1, 3, "f8", 0, None), (s0 + 701, 2, 1, 3, "more-room", 0, None), (s0 + 702, 2, 1, 3, "more-room", 0, None),
+            (s0 + 703, 2, 1, 3, "less-room", 0, None), (s0 + 704, 2, 1, 3, "less-room", 0, None)]
     for i in range(nrand):
         nd, np_ = shapes[i % len(shapes)]
         jobs.append((s0 + 2000 + i, nd, np_, kmax, "wide" if i % 5 == 4 else "random", nsteps, None))
